@@ -44,10 +44,14 @@ def requests(ctx):
     for k in range(3 if quick else 12):
         vars_, body = long_gap_body(rng, 9000 if quick else rng.choice([9000, 20000, 70000]))
         rq.append(vcdgen.request(["st", "rd", "mt:4:prod"][k % 3], vars_, body))
+    # a backwards and a repeated timestamp right behind the 65 535th time step (the storage segment rolls over there)
+    for opts in (["st"] if quick else ["st", "rd"]):
+        vars_, body = long_gap_body(rng, 65_560, glitch_at=65_535)
+        rq.append(vcdgen.request(opts, vars_, body))
     return rq
 
 
-def long_gap_body(rng, nsteps):
+def long_gap_body(rng, nsteps, glitch_at=None):
     vars_ = [(b"!", "b1"), (b"%", "b1"), (b"&", "b8"), (b"'", "b1"), (b"(", "r"), (b")", "b3")]
     out = [b"", b"#0", b"0!", b"0%", b"b00000000 &", b"x'", b"r0.5 (", b"b0z1 )"]
     # change points of the quiet variables: right around 4096 = 2^12 steps after their previous change, and later ones
@@ -55,6 +59,10 @@ def long_gap_body(rng, nsteps):
              b"(": [4096 + rng.randint(0, 3)], b")": [4095 + rng.randint(0, 2), 8700]}
     flip = {i: 0 for i in quiet}
     for t in range(1, nsteps):
+        if glitch_at is not None and t == glitch_at:
+            # exactly `glitch_at` steps (0 .. glitch_at-1) have been accepted: a backwards step (its changes are left out), then
+            # a repetition of the current time (continues the step)
+            out += [b"#3", b"1%", b"b11111111 &", b"#%d" % (t - 1), b"1'"]
         out.append(b"#%d" % t)
         out.append(b"%d!" % (t & 1))
         for i, pts in quiet.items():
